@@ -310,7 +310,10 @@ def clause_wiring(R):
                 if base not in (None, b):
                     raise NotSymbolic("mixed")
                 base = b
-        except (NotSymbolic, AttributeError):
+        except (NotSymbolic, AttributeError) as ex_:
+            import os
+            if os.environ.get("DBG_CFFT"):
+                print("cfft fail", type(ex_).__name__, ex_, [str(t_)[:160] for t_ in (coeff_tags(v) if True else [])][:2])
             base = "?"
         rec(E, "cfft", bi, base)
         return ret1(poly(S, st, f"^{base}", NN), st)
